@@ -9,6 +9,7 @@ Values: None | ("some", v) for Option, str, bool, int, dict (struct: field -> va
 [args]), list.  Anything outside the modelled subset raises NoEval: the rule then reports "not decided" (fail closed).
 """
 import copy
+import re as _re
 
 from . import rx
 from .facts import norm_ty, src
@@ -42,6 +43,25 @@ class Opq:
 
     def __repr__(self):
         return "<%s>" % self.label
+
+
+def _has_opq(v):
+    if isinstance(v, Opq):
+        return True
+    if isinstance(v, dict):
+        return any(_has_opq(x) for x in v.values())
+    if isinstance(v, (list, tuple)):
+        return any(_has_opq(x) for x in v)
+    return False
+
+
+def _copy_keep_opq(v):
+    """A copy of a container that shares the unknowns (their identity is what the rules compare)."""
+    if isinstance(v, dict):
+        return {k: _copy_keep_opq(x) for k, x in v.items()}
+    if isinstance(v, list):
+        return [_copy_keep_opq(x) for x in v]
+    return v
 
 
 class _Return(Exception):
@@ -508,6 +528,46 @@ class Probe:
             return ("enum", self.selfty if segs[0] == "Self" else segs[0], args)  # tuple struct
         raise NoEval("call %s" % "::".join(segs))
 
+    def convert(self, v, m="into"):
+        """`v.into()`: the crate's own From/Into impl for the value's type when there is exactly one; the identity when the
+        crate converts nothing of that kind (the target is then a std conversion between like types: &str → String, T → T,
+        or an error wrapper the caller unwraps); undecidable otherwise."""
+        if isinstance(v, tuple) and v and v[0] == "enum":
+            ty = v[1].split("::")[0]
+        elif isinstance(v, dict) and v.get("__ty"):
+            ty = v["__ty"]
+        elif isinstance(v, str):
+            ty = ("String", "&str", "&'staticstr", "char")
+        elif isinstance(v, bool):
+            ty = ("bool",)
+        elif isinstance(v, int):
+            ty = ("u8", "u16", "u32", "u64", "usize", "i32", "i64", "ModeT", "SizeType")
+        else:
+            ty = None
+        tys = (ty,) if isinstance(ty, str) else (ty or ())
+        cands = []
+        for k_, f_ in self.f.fns.items():
+            if f_.test:
+                continue
+            m1 = _re.match(r"<(.+) as From<(.+)>>::from$", k_)
+            m2 = _re.match(r"<(.+) as Into<(.+)>>::into$", k_)
+            if m1 and m1.group(2).replace(" ", "") in tys:
+                cands.append((f_, False))
+            elif m2 and m2.group(1).replace(" ", "") in tys:
+                cands.append((f_, True))
+            elif (m1 or m2) and ty is None:
+                cands.append((f_, bool(m2)))
+        if not cands:
+            return v
+        if len(cands) == 1 and ty is not None:
+            f_, is_into = cands[0]
+            return self.invoke(f_, v, []) if is_into else self.invoke(f_, None, [v])
+        if isinstance(v, tuple) and v and v[0] == "enum" and all(not ii for _, ii in cands):
+            # several targets for one source type (an error wrapped into different outer errors): the wrapper is decided by
+            # the expected type, which the evaluator does not track — keep the value, the caller compares modulo wrappers
+            return v
+        raise NoEval(".%s() of %r: several conversions of the crate could apply" % (m, v))
+
     def builtin(self, segs, args):
         """std / bitflags associated functions"""
         if len(segs) >= 2 and segs[-1] == "from_str_radix" and len(args) == 2 and isinstance(args[0], str) and isinstance(args[1], int):
@@ -592,8 +652,18 @@ class Probe:
             fn = self.f.fns.get("%s::%s" % (recv["__ty"], m))
             if fn is not None and fn.node.get("self") is not None:
                 return self.invoke(fn, recv, [self.ev(a, env) for a in e["args"]])
-        if m in ("as_ref", "as_deref", "as_str", "clone", "to_owned", "to_string", "as_mut", "borrow", "into", "iter", "into_iter", "copied", "cloned") and not e["args"]:
-            return copy.copy(recv) if m == "clone" and isinstance(recv, dict) else recv
+        if m in ("into", "try_into") and not e["args"]:
+            return self.convert(recv, m)
+        if m == "to_string" and not e["args"]:
+            if isinstance(recv, str):
+                return recv
+            if isinstance(recv, int) and not isinstance(recv, bool):
+                return str(recv)
+            raise NoEval("to_string() of %r (a Display impl is not evaluated)" % (recv,))
+        if m in ("as_ref", "as_deref", "as_str", "clone", "to_owned", "as_mut", "borrow", "iter", "into_iter", "copied", "cloned") and not e["args"]:
+            if m in ("clone", "to_owned", "cloned") and isinstance(recv, (dict, list)):
+                return copy.deepcopy(recv) if not _has_opq(recv) else _copy_keep_opq(recv)
+            return recv
         if m == "chars" and isinstance(recv, str) and not e["args"]:
             return list(recv)
         if m in ("chars", "as_str", "collect", "into_iter", "iter", "by_ref") and isinstance(recv, list):
